@@ -1295,14 +1295,6 @@ s_ = _SExp()
 
 
 # ------------------------------------------------------------------------------------ masked arrays (subset)
-class _MaskedConstant(object):
-    def filled(self, fill_value=None):
-        return ndarray((), 'f', [fill_value])
-
-    def __repr__(self):
-        return 'masked'
-
-
 class MaskedArray(object):
     def __init__(self, data, mask):
         self._data = data
@@ -1342,6 +1334,19 @@ class MaskedArray(object):
 
     def __array__(self, *a, **k):
         return self._data
+
+
+class _MaskedConstant(MaskedArray):
+    """np.ma.masked: the fully masked 0-d result (an instance of a MaskedArray subclass, as in NumPy)"""
+
+    def __init__(self):
+        MaskedArray.__init__(self, ndarray((), 'f', [0.0]), ndarray((), 'b', [True]))
+
+    def filled(self, fill_value=None):
+        return ndarray((), 'f', [fill_value])
+
+    def __repr__(self):
+        return 'masked'
 
 
 class _MA(object):
